@@ -44,6 +44,11 @@ def run(ctx):
     vplib.gen_consts(ctx)
     proofs_ok, detail = vplib.check_proofs(ctx)
     ctx.log("proofs:", proofs_ok, detail[:200])
+    if proofs_ok and not ctx.quick:
+        ok, log = vplib.coqchk(ctx)
+        ctx.log("coqchk:", ok)
+        if not ok:
+            proofs_ok, detail = False, "coqchk rejected the compiled development: " + log[-600:]
     bins = vplib.cargo_build(ctx, "harness", ["c03"])
     rng = ctx.rng
 
